@@ -111,3 +111,24 @@ def extreme_specs(ctx, tag, *, constraint=0.5, n_fast=60, n_slow=14, rounds=1):
                         spec["constraint_desc"] = (kind,)
                 out.append(spec)
     return out
+
+
+def dtype_edge_specs(ctx, tag, *, per=2, long1d=True):
+    """per optimizer: short runs on spaces whose index range crosses an integer-width boundary (129..257 points next to a short dimension,
+    and one 1-D space of ~33000 points): candidate arrays are built with the tightest integer type, so a wrong cast wraps there"""
+    rng = ctx.sub_rng(tag + "-dtype-edge")
+    out = []
+    for name in gen.ALL:
+        slow = name in gen.SLOW
+        shapes = [[rng.choice([129, 150, 200, 254, 255, 256, 257, 300]), rng.choice([2, 3, 4])] for _ in range(per)]
+        if long1d and (slow or rng.random() < 0.3):
+            shapes.append([rng.choice([32769, 33000, 40000])])
+        for sizes in shapes:
+            if rng.random() < 0.5:
+                sizes = list(reversed(sizes))
+            space = {"x%d" % d: np.arange(sizes[d]) - rng.choice([0, 7]) for d in range(len(sizes))}
+            spec = dict(name=name, space=space, table=LazyTable(space), calls=[dict(n_iter=(14 if not slow else 10), memory=False, verbosity=False)],
+                        seed=rng.randrange(10 ** 6), init={"random": rng.choice([2, 3]), "vertices": rng.choice([0, 2])}, cfg={},
+                        meta=[("int", "asc", n) for n in sizes], steps_api=True, feasible=None)
+            out.append(spec)
+    return out
